@@ -157,11 +157,30 @@ def escapeMarkdown (s : Str) : Str :=
 def mdRow (r : List Cell) : Str :=
   [124] ++ r.flatMap (fun c => [32] ++ escapeMarkdown c.text ++ [32, 124]) ++ [10]
 
-/-- `(*ParsedTable).ToMarkdown` -/
-def tableToMarkdown : List (List Cell) → Str
+/-- the row loop of `(*ParsedTable).ToMarkdown` on lines of cells: first line, separator with as
+many cells, the other lines.  Before fix 72cc329 the lines were `t.Rows` themselves
+(`tableToMarkdownOld`): one Markdown cell per `<td>`/`<th>`, spans ignored. -/
+def mdLines : List (List Cell) → Str
   | [] => []
   | first :: rest =>
     mdRow first ++ [124] ++ first.flatMap (fun _ => [32, 45, 45, 45, 32, 124]) ++ [10] ++ rest.flatMap mdRow
+
+/-- a position of the table's grid as a cell: the cell that stands there, or — a position
+covered by a span or left open by a short row — the empty cell (`model.NewTable`'s default in
+`DocumentWithOptions`, the empty text in `ToMarkdown`) -/
+def gridCell : Option Cell → Cell
+  | some c => c
+  | none => ⟨[], false, 1, 1⟩
+
+/-- `(*ParsedTable).grid()` (Model/HtmlGrid.lean), every position as a cell -/
+def tableGrid (rows : List (List Cell)) : List (List Cell) :=
+  (HtmlGrid.grid Cell.colSpan Cell.rowSpan rows).map (·.map gridCell)
+
+/-- `(*ParsedTable).ToMarkdown` (since fix 72cc329): the lines of the table's grid -/
+def tableToMarkdown (rows : List (List Cell)) : Str := mdLines (tableGrid rows)
+
+/-- `(*ParsedTable).ToMarkdown` before the fix -/
+def tableToMarkdownOld (rows : List (List Cell)) : Str := mdLines rows
 
 def hashes : Nat → Str
   | 0 => []
@@ -203,13 +222,15 @@ inductive DocEl where
   | table (rows : List (List Cell))
   deriving DecidableEq, Repr
 
-/-- widest row -/
+/-- widest row (the model table's width before fix 72cc329) -/
 def numCols (rows : List (List Cell)) : Nat := rows.foldl (fun a r => max a r.length) 0
 
-/-- a row of the `model.NewTable(numRows, numCols)` grid after the copy loop -/
+/-- a row of the `model.NewTable(numRows, numCols)` grid after the copy loop, before fix 72cc329:
+the cells by their index in the row -/
 def padRow (n : Nat) (r : List Cell) : List Cell := r ++ List.replicate (n - r.length) ⟨[], false, 1, 1⟩
 
-/-- the loop of `DocumentWithOptions` -/
+/-- the loop of `DocumentWithOptions`; a table is copied from its grid (`tableGrid`): the model
+table has the grid's rows and columns, a cell at the position where it stands -/
 def docElements : List Element → List DocEl
   | [] => []
   | e :: rest =>
@@ -219,7 +240,7 @@ def docElements : List Element → List DocEl
       | .code t => [.para t]
       | .quote t => [.para t]
       | .list o items => [.list o (items.map fun i => (i.level, i.text))]
-      | .table _ rows => if rows = [] then [] else [.table (rows.map (padRow (numCols rows)))]) ++ docElements rest
+      | .table _ rows => if rows = [] then [] else [.table (tableGrid rows)]) ++ docElements rest
 
 /-! ### the public calls -/
 
